@@ -123,7 +123,6 @@ def wingbox_surface(mesh, symmetry=True, name="wing", **kw):
         "strength_factor_for_upper_skin": 1.0, "wing_weight_ratio": 1.25,
         "exact_failure_constraint": False, "struct_weight_relief": True,
         "distributed_fuel_weight": True, "fuel_density": 803.0, "Wf_reserve": 15000.0,
-        "n_point_masses": 0,
     }
     surf.update(kw)
     return surf
